@@ -294,6 +294,15 @@ def doFinishCb (s : State) (t : TxnId) : Res :=
   else if s.txn ≠ some t then (s, [], .errTxn)
   else ({ s with txn := none, commitLock := none, armed := none }, [], .errCallback)
 
+/-- `tpc_abort(t)` whose `_abort` raises — the truncate that removes the voted records, or the removal
+    of a blob file, fails: the `finally` of BaseStorage.tpc_abort still releases the commit lock, but
+    `_clear_temp()` and `_transaction = None` are skipped and nothing is truncated.  Kept OUTSIDE `step`
+    (a fault inside the abort cannot restore anything; what remains is "blocks no one"). -/
+def doAbortFault (s : State) (t : TxnId) : Res :=
+  if s.closed then (s, [], .closed)
+  else if s.txn ≠ some t then (s, [], .ok)
+  else ({ s with commitLock := none, armed := none }, [.fault .data], .errIO)
+
 /-- BaseStorage.tpc_abort + FileStorage._abort + _blob_tpc_abort + _clear_temp -/
 def doAbort (s : State) (t : TxnId) : Res :=
   if s.txn ≠ some t then (s, [], .ok)      -- silently ignored
